@@ -65,7 +65,7 @@ var props = []propCfg{
 	},
 	{
 		ID: "C20", World: "entropy", Pkg: "worlds/entropy", Test: "TestEntropy", Level: "exploration",
-		Variants: []variant{{Name: "plain", Quick: 4000, Thorough: 20000, Workers: 16, QuickS: 1500, ThoroughS: 4 * 3600}},
+		Variants: []variant{{Name: "plain", Quick: 4000, Thorough: 8000, Workers: 16, QuickS: 1500, ThoroughS: 4 * 3600}},
 		Rule:     "each run draws 1..4 keys over all randomized catalogue key types and variants (AEAD, streaming AEAD, hybrid HPKE/ECIES, signatures, JWT signatures) plus an interleaved history of 1..24 (thorough 50) produce / new-primitive / key-generation / manager-add calls with the RNG behind the simrng seam; legal short reads of the RNG (max 2..7 bytes) are on in 70% of runs and key-ID collisions are scripted. Per call: provenance (the random field equals a contiguous range issued during this very call, windows disjoint and advancing), sensitivity (re-run with one consumed byte XOR 0xFF: the output must change), independent crypto/ecdh recomputation of ephemerals, pairwise no-repeat sets, and SetGlobalRandom-differential for ML-KEM. Non-trivial = an oracle ran and a fault fired or more than 3 calls were made; distinct = signature (first key class/type/variant, #keys, set of oracles exercised, fault kinds fired, call-count class).",
 		Assume:   []string{"simrng's stream is collision-free over a run", "Go 1.26.8 with GODEBUG cryptocustomrand=1 (harness go.mod says go 1.25.0): the reader tink passes to ecdsa/rsa/ecdh is honoured", "randomness drawn inside the standard library without a reader is reachable only through testing/cryptotest.SetGlobalRandom", "statistical quality of the OS RNG is out of scope: identity with the RNG's bytes is what is decided", "rejection sampling never discards more than (consumed - scheme length) bytes"},
 	},
